@@ -1494,7 +1494,7 @@ func ruleMergedOwner(rule string) func(*Ctx) {
 						if q < 0 && p.stores[-q-1].addr == X+".owner" {
 							owned = true
 						}
-						if q > 0 && strings.HasSuffix(p.calls[q-1].callee, "setOwner") && len(p.calls[q-1].args) > 0 && p.calls[q-1].args[0].expr == X {
+						if q > 0 && strings.HasSuffix(p.calls[q-1].callee, "setOwner") && len(p.calls[q-1].args) > 0 && roleArg(p.calls[q-1], "outrec", 0).expr == X { // the record that gets the owner, by parameter NAME (the parameters may have been reordered)
 							owned = true
 						}
 					}
